@@ -323,6 +323,9 @@ def rule_version_in_scope(ctx, rule_id="C14.version-in-scope", only_callees=None
                 # falls back to a default) and passes THAT down names a version the caller never named
                 if ok and sv[0] == "param" and fi.id not in DETECTOR_SITES and (pr.calls or (pr.params - {sv[1]})):
                     ok = False
+                # ... and never mixed with a hard-coded version on some path
+                if ok and any(isinstance(c_, str) and c_ in ("2.0", "2.1") for c_ in pr.consts):
+                    ok = False
                 found = repr(pr)
             run.check(ok, rule_id, c, "the version handed to %s is not the version in force at this call site" % t.func.id,
                       file=fi.module.relpath, line=call.lineno, function=fi.qualname, expected="%s %s" % sv, found=found)
